@@ -514,6 +514,16 @@ var fixed = []string{
 	`<table><thead><tr><th>tk0001x</th></tr></thead><tbody><tr><td>tk0002x</td></tr></tbody><tfoot><tr><td>tk0003x total</td></tr></tfoot></table>`,
 	`<table><tr><td colspan="2">tk0001x wide</td></tr><tr><td>tk0002x</td><td>tk0003x</td></tr></table>`,
 	`<p>tk0001x intro<table><tr><td>tk0002x</td></tr></table></p>`,
+	`<p>tk0001x intro <b>tk0002x</b><table><tr><td>tk0003x</td></tr></table>tk0004x tail <a href=x>tk0005x</a><table><tr><td>tk0006x</td></tr></table></p>`,
+	`<div>tk0001x intro <b>tk0002x bold</b><p>tk0003x para</p>tk0004x tail</div>`,
+	`<div>tk0001x outer<div>tk0002x inner<p>tk0003x</p>tk0004x inner2</div>tk0005x outer2</div>`,
+	`<ul><li>tk0001x a</li><div>tk0002x text<p>tk0003x</p></div><li>tk0004x b</li></ul>`,
+	`<div>tk0001x <span class="menu">tk0002x</span> tk0003x<nav>tk0004x <a href=1>tk0005x</a></nav>tk0006x<p class="sidebar">tk0007x</p><aside>tk0008x</aside>tk0009x</div>`,
+	`<div class="nav">tk0001x own<p>tk0002x</p></div><div>tk0003x see <code>tk0004x</code> here<li>tk0005x stray</li><h2>tk0006x</h2><!-- lk0001x --><script>lk0002x</script> <br> </div>`,
+	`<div><span>tk0001x wrapped<p>tk0002x</p>tk0003x</span>tk0004x<section>tk0005x sec<p>tk0006x</p></section></div>`,
+	`<p>tk0001x<table><tr><td>tk0002x</td></tr></table><span>tk0003x<table><tr><td>tk0004x</td></tr></table></span></p>`,
+	`<p>tk0001x<table><section>tk0002x<div>tk0003x</div></section><tr><td>tk0004x</td></tr></table></p>`,
+	`<main><a href=a><p>tk0001x two<table><tr><td>tk0002x</td></tr></table><a href=b>tk0003x</a> tk0004x<table><tr><td>tk0005x</td></tr></table></p></a></main>`,
 	`<!DOCTYPE html><body><div id=wrapper><header><h1>tk0001x site</h1></header><main><article><header><h2>tk0002x post</h2></header><p>tk0003x body</p><footer><p>tk0004x byline</p></footer></article></main><footer><p>tk0005x legal</p></footer></div><script>var lk0001x;</script>`,
 	`<div class="footnote"><p>tk0001x</p></div><div class="sidebarish"><p>tk0002x</p></div><div class="navigate"><p>tk0003x</p></div><div class="main-nav"><p>tk0004x</p></div>`,
 	`<div><a href=1>tk0001x</a> <a href=2>tk0002x</a> <a href=3>tk0003x</a> <a href=4>tk0004x</a></div><div><p>tk0005x text</p></div>`,
@@ -551,6 +561,7 @@ func countNote(c *hx.Ctx, note string) {
 
 func Run(c *hx.Ctx) {
 	c.Rep.Rule = "DOM trees generated from a grammar of content elements (h1-6, p, nested/loose lists, tables with spans and sections, pre/code, blockquote) " +
+		"and block containers (div, p in quirks mode, section, article, blockquote, li, td, …) whose children interleave inline runs (text, inline elements with navigation-like attributes, blank runs) with block-level children, wrappers around blocks and nested containers of the same kind, " +
 		"mixed with nav/aside/header/footer, ARIA roles, class/id names from and near the exclusion vocabulary, link-dense/sparse blocks and skipped elements, " +
 		"at depth up to 10, in six page layouts; written by an independent HTML writer (entity forms, optional tags omitted, mixed case, unclosed formatting) and, " +
 		"for one case in five, damaged (truncation, dropped/stray/duplicated tags, garbage); every content element carries a unique token; each document is read in " +
